@@ -146,6 +146,10 @@ def build_input(case):
     k = np.arange(n, dtype="float64")
     orig = {c: A_COEF[c][0] + A_COEF[c][1] * k for c in cols}
     extra = {c: A_COEF[c][0] + A_COEF[c][1] * k + A_COEF[c][1] / 2 for c in cols}
+    if base["fuel"] == "gas" and "observed" in orig:
+        # a gas meter feed with negative readings (corrections / a register running backwards): supplied finite values like any other
+        orig["observed"][5::17] *= -1.0
+        extra["observed"][5::17] *= -1.0
     absent = np.zeros(n, bool)
     before = np.zeros(n, bool)
     after = np.zeros(n, bool)
